@@ -139,8 +139,9 @@ def verify_function(src, con, models, axioms=(), prefix=None, prune=True):
             frame_obligations(eng, con, c0, s1, entry_heap, normal=True)
         elif kind == RAISE:
             exc = pay.name
-            allowed = [cond for e2, cond in raise_conds.items() if e2 == exc]
-            if exc in con.may_raise:
+            from .interp import exc_isa
+            allowed = [cond for e2, cond in raise_conds.items() if exc_isa(exc, e2)]
+            if exc in con.may_raise or any(exc_isa(exc, m) for m in con.may_raise):
                 pass
             elif allowed:
                 eng.oblige(s1, f"raises.{exc}.condition", allowed[0], "raises")
